@@ -210,6 +210,12 @@ rf64_read_header (SF_PRIVATE *psf, int *blockalign, int *framesperblock)
 
 		psf_store_read_chunk_u32 (&psf->rchunks, marker, psf_ftell (psf), chunk_size) ;
 
+		/* The skip count of psf_binheader_readf is an int : 2G or more would become a step backwards. */
+		if (chunk_size > 0x7fffffff && marker != data_MARKER)
+		{	psf_log_printf (psf, "*** %M : chunk size %u is too big. Exiting parser.\n", marker, chunk_size) ;
+			break ;
+			} ;
+
 		switch (marker)
 		{	case ds64_MARKER :
 				if (parsestage & HAVE_ds64)
